@@ -45,6 +45,10 @@ QUICK_JOBS = [
     J("cr64s-up64-dft-stream", 1, 64, ch=1, q=6, simd=1, ops="C,P:200:2,P:2000:1,F:50000,D"),
     # equal rates, equal datatypes: the planner ends with no stage at all (the stage array still has its one extra element)
     J("cr32-passthrough-stereo-clear", 48000, 48000, ch=2, q=4, simd=0, ops="C,P:1000:2,F,K,P:500:1,D"),
+    # the libsamplerate-compatible wrapper (soxr-lsr.c): src_callback_new / src_callback_read / src_reset / src_delete and
+    # src_new / src_process - the same allocations (deferred initialisation at the first block), reached through the wrapper's own code
+    J("lsr-callback-stereo-reset", 44100, 48000, ch=2, simd=1, lsr=2, lsrcb=1, ops="Z,P:1000:2,K,P:500:1,F,D"),
+    J("lsr-process-mono", 3, 2, ch=1, simd=0, lsr=0, lsrcb=0, ops="Z,P:2000:2,F,D"),
 ]
 
 
@@ -97,7 +101,7 @@ def thorough_jobs(rng):
 def job_args(j, k):
     a = ["ir=%r" % float(j["ir"]), "or=%r" % float(j["orate"]), "ch=%d" % j["ch"], "q=%d" % j["q"], "qf=%d" % j["qf"],
          "phase=%g" % j["phase"], "simd=%d" % j["simd"], "ops=" + j["ops"], "k=" + k]
-    for key in ("rtf", "ldft", "mdft", "coefkb", "split", "prec", "pb", "sb", "timeout", "persist"):
+    for key in ("rtf", "ldft", "mdft", "coefkb", "split", "prec", "pb", "sb", "timeout", "persist", "lsr", "lsrcb"):
         if key in j:
             a.append("%s=%s" % (key, j[key]))
     return a
@@ -450,10 +454,15 @@ def check_job(ctx, j, exe, variant, sym, sites, known_sites, results, persist=Fa
         results.append(dict(base, verdict="violation", k=None, site=left[0],
                             what="%d blocks are still live after soxr_delete although no allocation failed (leak): %s" % (
                                 len(left), ", ".join(sorted(set(left))[:6]))))
-    lines, problems = build_model_input(rec, keys, sites, j["ops"], j["ch"])
-    model = run_model(lines) if lines else None
-    structure_ok = bool(model) and not model["errors"] and model["n"] == count and model["seq"] == seqkeys and \
-        model["nofail"] == "ok final=0" and not problems
+    if "lsr" in j:
+        # through the wrapper one API call spans several calls of soxr.c (src_process = soxr_set_io_ratio + soxr_process): the model of
+        # soxr.c's calls is not asked; every failure is judged by the table of sites (checked => clean error, nothing live after delete)
+        lines, problems, model, structure_ok = None, [], None, True
+    else:
+        lines, problems = build_model_input(rec, keys, sites, j["ops"], j["ch"])
+        model = run_model(lines) if lines else None
+        structure_ok = bool(model) and not model["errors"] and model["n"] == count and model["seq"] == seqkeys and \
+            model["nofail"] == "ok final=0" and not problems
     if not structure_ok:
         what = "the recorded allocation sequence is not the one the model of soxr.c produces: "
         if problems:
@@ -523,6 +532,9 @@ def check_job(ctx, j, exe, variant, sym, sites, known_sites, results, persist=Fa
                 if op >= 0 and (not real["poke"] or not real["poke"]["err"] or not real["poke"]["sticky"]):
                     ok = False
                     detail.append("the object is not in error state after the failing call (soxr_process on it: %s)" % real["poke"])
+            if ok and not m and real["final"] != 0:
+                ok = False
+                detail.append("%d blocks live after soxr_delete (leak)" % real["final"])
             r.update(verdict="ok" if ok else "violation", what="; ".join(detail))
         else:
             stat["unchecked"] += 1
